@@ -150,6 +150,14 @@ def make_pool(pool_seed: int, sizes=("small", "small", "medium", "medium", "larg
         o = sut.compile_exps(src_)
         if "ok" in o:
             docs.append({"routines": o["ok"]["routines"]})
+    # deeply nested routine sets (17-22 block levels, a multi-line string at the bottom): whatever is prepared per indent
+    # level - lazily, on first use - is first used by these
+    for n_ in rng.sample([17, 19, 22], 2):
+        src_ = ("def 0 {\n" + "".join(f"if ($V == {i_}) {{\nd{i_}();\n" for i_ in range(n_)) + "deep('a\\nb', {english='e\\nf', german='g'});\n"
+                + "}\n" * n_ + "end;\n}\n")
+        o = sut.compile_exps(src_)
+        if "ok" in o:
+            docs.append({"routines": o["ok"]["routines"]})
     # routine sets that are NOT well formed (a routine cut off right after a branch: no ending opcode). They are legitimate
     # predecessors in a history - the call fails over to the fallback from inside the graph passes, after it has already
     # analysed the routines before - and are only ever used as such
@@ -299,6 +307,8 @@ class Proc:
         self.pool = pool
         self.version = version
         self.vfs = Vfs.load(pool.get("vfs_variants", [pool["vfs"]])[version]).install()
+        self.vfs.max_open_files = 12  # a process has only so many descriptors (an import chain holds one per level)
+        self.kept_exceptions: list = []  # a caller that logs / collects the exceptions of failed calls keeps their tracebacks alive
         self.compilers: dict = {}
         self.slot_lookup: dict = {}
         self.kept: list = []  # results handed to the caller earlier: a later call must not change them
@@ -399,6 +409,8 @@ def _do_op(P: Proc, op: dict) -> dict:
             else:
                 c.compile(src, t["file"])
         except Exception as e:
+            P.kept_exceptions.append(e)
+            del P.kept_exceptions[:-40]
             if slot is not None:
                 P._failed_slots.add(slot)
             with trace.observation():
@@ -816,6 +828,13 @@ def run_item(item: dict) -> dict:
     for j in rdocs[: item.get("repeat_docs", 6)]:
         a, b = srng.choice([("D", "D"), ("S", "D"), ("D", "S"), ("S", "D")])
         hists.append((seeds.H(pool_seed, "repeat", j), [{"k": a, "j": j, "share": True}, {"k": b, "j": j, "share": True}, {"k": "D", "j": j, "share": True}]))
+    # many failed compiles of a project script (an imported file is broken), their exceptions kept by the caller, then
+    # the repaired project: what the failures left open (files, locks, stacks) must not starve the later compile
+    proj = [i for i, t in enumerate(pool["texts"]) if t["kind"] == "exps-imports"]
+    if len(pool.get("vfs_variants", [])) > 1 and proj and srng.random() < 0.6:
+        pi = srng.choice(proj)
+        hists.append((seeds.H(pool_seed, "failures", pi), [{"k": "E", "v": 1}] + [{"k": "C", "i": srng.choice(proj), "slot": srng.choice([None, 0])} for _ in range(16)]
+                      + [{"k": "E", "v": 0}, {"k": "C", "i": pi, "slot": None}]))
     refs = {}
     counts = {}
     for hs, ops in hists:
